@@ -37,8 +37,8 @@ ENGINE = "hypothesis @given over (EOS zoo with alpha_n placed relative to the LT
 RULE = (
     "Case = EOS spec x tolerances {(1e-6,1e-10),(1e-9,1e-12)} x solver {Hydrodynamics, HydrodynamicsTemplateModel}. "
     "bag/template: Psi_n in [0.5, 0.995], alpha_n = static (25 %: between the positive-bag-constant bound and "
-    "(1-Psi_n)/3, i.e. Tn above Tc) or (1-Psi_n)/3 (1 + 10^u), u in [-2.5, 1.5], which straddles the runaway "
-    "threshold alpha_max(Psi_n, c_s, c_b); two-step: Tn/Tc in [0.4, 0.98] or (static) 1 + 10^[-2.5,-1]; cubic "
+    "(1-Psi_n)/3, i.e. Tn above Tc), (1-Psi_n)/3 (1 + 10^u), u in [-2.5, 1.5], which straddles the runaway "
+    "threshold alpha_max(Psi_n, c_s, c_b), or (25 %) strong: 1/3 (1 + 10^[-1.5, 1]) so that v_min > 0; two-step: Tn/Tc in [0.4, 0.98] or (static) 1 + 10^[-2.5,-1]; cubic "
     "potential: Tn between T0 and Tc or (static) between Tc and the spinodal; traced cubic potential. "
     "Non-trivial = interior root (not in a margin), or a sentinel whose |S|/(T+ gamma+) at the decisive end "
     "exceeds 1e-3. Distinct by canonical JSON of the case."
@@ -96,7 +96,7 @@ def st_lte_template(draw, family):
     mu, nu = 1.0 + 1.0 / cs2, 1.0 + 1.0 / cb2
     a_eps = max((mu - nu) / (3.0 * mu), 0.0)         # bag constant positive above this
     a_min = (1.0 - psi) / 3.0                          # low-T phase favoured above this
-    regime = draw(st.sampled_from(["static", "above", "above", "above"]))
+    regime = draw(st.sampled_from(["static", "static", "above", "above", "above", "above", "strong", "strong"]))
     spec = {"family": family, "Tn": draw(Z.st_tn()), "psiN": psi, "g": 10.0 ** draw(_f(-1.0, 2.0))}
     if family == "template":
         spec.update(cs2=cs2, cb2=cb2)
@@ -104,6 +104,9 @@ def st_lte_template(draw, family):
         lo = a_eps + 1e-4 if a_eps > 0 else 0.02 * a_min
         spec["alN"] = lo + (a_min - lo) * draw(_f(0.02, 0.98))
         spec["allow_unfavoured"] = True
+    elif regime == "strong":
+        # alpha_n > 1/3: v_min > 0, the window starts at the strongest possible shock
+        spec["alN"] = max(1.0 / 3.0, a_min, a_eps) * (1.0 + 10.0 ** draw(_f(-1.5, 1.0)))
     else:
         spec["alN"] = max(a_min, a_eps) * (1.0 + 10.0 ** draw(_f(-2.5, 1.5))) + (1e-4 if a_eps >= a_min else 0.0)
     return spec
@@ -244,6 +247,7 @@ def check_case(case) -> Verdict:
     thr = [(1.0 - psiN) / 3.0, (mu - nu) / (3.0 * mu), 1.0 / 3.0]
     near_alpha = min(abs(alN - t) for t in thr) < 1e-3 * max(alN, 1e-3)
     base = f"{solver}/{fam}"
+    v.label("alpha>1/3" if alN > 1.0 / 3.0 else "alpha<1/3")
     try:
         if solver == "general":
             hyd = Z.build_hydro(th, rtol, atol)
@@ -263,6 +267,8 @@ def check_case(case) -> Verdict:
             return v.discarded("margin:alpha-threshold")
         raise
     lo_v = max(vmin, 1e-3)
+    if vmin > 1e-3:
+        base += "/vMin>0"
     v.info.update(vMin=vmin, vJ=vJ)
     try:
         res = hyd.findvwLTE()
